@@ -26,6 +26,18 @@ def joinSp : StrList → Str
   | .SCons x .SNil => x
   | .SCons x r => x ++ [32] ++ joinSp r
 
+/-- `";".join(l)` -/
+def joinSemi : StrList → Str
+  | .SNil => []
+  | .SCons x .SNil => x
+  | .SCons x r => x ++ [59] ++ joinSemi r
+
+/-- `"\n".join(l)` -/
+def joinNl : StrList → Str
+  | .SNil => []
+  | .SCons x .SNil => x
+  | .SCons x r => x ++ [10] ++ joinNl r
+
 def dropWsLeft : Str → Str
   | [] => []
   | c :: cs => if isWs c then dropWsLeft cs else c :: cs
